@@ -21,4 +21,10 @@ META["C02"] = {
     "technique": "property-based testing (rapid): spy signer/verifier vs. reference Sig_structure builder; metamorphic tag/external/unprotected variation",
 }
 
+META["C01"] = {
+    "text": "Property-based exploration of the sign->verify and sign->encode->decode->verify round trips over every structure kind, algorithm and layer, with an independent reference verifier confirming that 'verifies' is not mere self-consistency. Exploration is the right level: the statement quantifies over an unbounded data model that can only be sampled; the generator forces the boundary classes and the driver refuses to pass when a required class is empty.",
+    "note": TRUST,
+    "technique": "property-based testing (rapid): round-trip oracle + independent reference verifier on the wire bytes",
+}
+
 NOT_APPLICABLE = {}
